@@ -30,10 +30,14 @@ def run(rep):
         w_seed = z3.If(z3.And(z3.Not(is_early), draw == ee), z3.If(w0 >= bg0, w0, bg0), w0)
         bg1 = z3.If(good, bg0 + 1, bg0); fg1 = z3.If(good, fg0 + 1, fg0)
         freq = z3.If(is_early, I('early_switch_freq'), w_seed)
-        grown = A.trunc(Fl(A.uf['round'](z3.ToReal(w_seed) * R('growth'))))
-        nxt = z3.If(is_early, I('early_switch_freq'), z3.If(w_seed + 1 >= grown, w_seed + 1, grown))
-        is_late = nxt + draw > fw
-        want_switch = z3.And(bg1 >= freq, z3.Not(is_late))
+        # the next main-phase window: the statement asks for geometric growth by the configured factor and for windows that never shrink; how w * growth is
+        # rounded to an integer is the implementation's choice, so every N with max(w, floor(w g)) <= N <= max(w + 1, ceil(w g)) is admissible (the code's own `+ 1` guard is allowed, not required)
+        wg = z3.ToReal(w_seed) * R('growth'); flo = z3.ToInt(wg); cei = -z3.ToInt(-wg)
+        mx = lambda a, b: z3.If(a >= b, a, b)
+        n_min = z3.If(is_early, I('early_switch_freq'), mx(w_seed, flo)); n_max = z3.If(is_early, I('early_switch_freq'), mx(w_seed + 1, cei))
+        late_all = n_min + draw > fw            # no admissible next window fits before the final step-size window
+        late_some = n_max + draw > fw           # at least one admissible next window does not fit
+        could = bg1 >= freq
         tag = 'C09 adapt() %s' % method; bad = {}; reached = set()
         for (m, k, v) in outs:
             if k == 'panic': bad.setdefault('panic', ('reachable panic in adapt: %s' % (v,), {})); continue
@@ -48,16 +52,22 @@ def run(rep):
             else: chk('no estimator update although the draw is inside the mass-matrix phase', in_mm, 'phase_missing')
             if 'update_estimators' not in names: continue
             reached.add('mm')
-            # switch <=> a full window of accepted draws is in the background AND another full window still fits
-            chk('window switch decision differs from "background holds a full window and the next window still fits before the final step-size window"', (z3.BoolVal(switched) != want_switch), 'switch_rule')
-            if switched: reached.add('switch')
+            # switch <=> a full window of accepted draws is in the background AND another full window still fits (for the window size the code itself
+            # chooses next, which must be admissible)
+            w_after = p['window']
+            if switched:
+                reached.add('switch')
+                chk('window switch although the background does not hold a full window', z3.Not(could), 'switch_rule')
+                chk('window switch although no admissible next window fits before the final step-size window', late_all, 'switch_rule')
+                chk('window switch although the next window the code chose does not fit before the final step-size window', z3.And(z3.Not(is_early), w_after + draw > fw), 'switch_rule')
+                chk('window size after a main-phase switch is not the old size grown by the factor (rounded either way, at least + 1)', z3.And(z3.Not(is_early), z3.Or(w_after < n_min, w_after > n_max)), 'window_growth')
+                chk('window size changes on an early-phase switch', z3.And(is_early, w_after != w_seed), 'window_growth')
+            else:
+                chk('no window switch although the background holds a full window and every admissible next window still fits before the final step-size window', z3.And(could, z3.Not(late_some)), 'switch_rule')
+                chk('window size changes without a switch (other than the seed at the early->main boundary)', w_after != w_seed, 'window_growth')
             # counts after: foreground = old background, new background empty
             mm = p['mm']
             chk('estimator counts after the step are wrong (stale draws kept or fresh ones lost)', z3.Or(mm['fg'] != (bg1 if switched else fg1), mm['bg'] != (z3.IntVal(0) if switched else bg1)), 'counts')
-            # window growth: only on main-phase switches, never shrinks
-            w_after = p['window']
-            chk('window size after the step differs from the schedule (grow by the factor on a main-phase switch, seed at the early->main boundary, otherwise unchanged)',
-                w_after != z3.If(z3.And(z3.BoolVal(switched), z3.Not(is_early)), nxt, w_seed), 'window_growth')
             chk('window size shrank', w_after < w0, 'window_shrinks')
             # transformation update cadence
             chk('A::adapt called although neither a switch happened nor update_freq draws passed (or vice versa)', z3.BoolVal(bool(adapted)) != z3.Or(z3.BoolVal(switched), draw - I('last_update') >= I('update_freq')), 'update_cadence')
@@ -70,8 +80,11 @@ def run(rep):
             if method == 'DualAverage':
                 wgt = 1 / (z3.ToReal(I('da_count')) + R('t0'))
                 new_mean = R('col_sum_mean') / z3.ToReal(I('col_count')); new_sym = R('col_sum_sym') / z3.ToReal(I('col_count'))
-                stat = z3.If(is_late, new_sym, new_mean)
-                chk('dual averaging fed with the wrong acceptance statistic (symmetric statistic must be used exactly when no further window fits)', p['da_hbar'].v != (1 - wgt) * R('hbar') + wgt * (R('target') - stat), 'late_statistic')
+                e_sym = (1 - wgt) * R('hbar') + wgt * (R('target') - new_sym); e_mean = (1 - wgt) * R('hbar') + wgt * (R('target') - new_mean)
+                got = p['da_hbar'].v
+                chk('dual averaging fed with the early (asymmetric) statistic although no admissible next window fits any more (the symmetric statistic must be used from then on)', z3.And(late_all, got != e_sym), 'late_statistic')
+                chk('dual averaging fed with the late (symmetric) statistic although every admissible next window still fits', z3.And(z3.Not(late_some), got != e_mean), 'late_statistic')
+                chk('dual averaging fed with neither acceptance statistic of the trajectory', z3.And(got != e_sym, got != e_mean), 'late_statistic')
         for r in ('mm', 'switch'): rep.cover('%s reachable: %s' % (tag, r), r in reached)
         # final window: only the late statistic + step size update
         for (m, k, v) in outs:
@@ -84,7 +97,7 @@ def run(rep):
         for key, (what, md) in bad.items():
             rep.violated('%s: %s' % (tag, key), 'adapt.%s' % key, '%s [%s] e.g. %s' % (what, method, md), model=md)
         if not bad: rep.holds('%s: switch rule, counts after swap, window growth, update cadence, first-change search, early/late statistic (%d paths)' % (tag, len(outs)), time.time() - t0)
-        if method == 'DualAverage': rep.sample({'query': tag, 'reference switch rule': str(z3.simplify(want_switch))[:500]})
+        if method == 'DualAverage': rep.sample({'query': tag, 'reference': 'switch iff background >= window and the next window N fits (N + draw <= final window start), N in [max(w, floor(w g)), max(w+1, ceil(w g))]'})
     diag_contract(rep, mir, L)
     from ..driver import parts
     parts(rep, [lambda: lowrank_contract(rep, mir, L), lambda: validate_schedule(rep, mir, L, SCHEDULES[:2] if rep.tier == 'quick' else SCHEDULES)])
